@@ -58,12 +58,17 @@ where
         let mut sxy = T::zero();
         let mut syy = T::zero();
 
+        // The correlation does not change when all values are shifted. Measuring them from the oldest
+        // one keeps `n * sxx - sx^2` from cancelling when the level is large compared to the moves
+        // (in f32 a level of 6 with moves of 0.01 was enough to be off by 0.3).
+        let origin = self.q_vals.front().copied().unwrap_or_else(T::zero);
         for (i, v) in self.q_vals.iter().enumerate() {
             let count = T::from(i).expect("can convert");
-            sx = sx + *v;
+            let v = *v - origin;
+            sx = sx + v;
             sy = sy + count;
             sxx = sxx + v.powi(2);
-            sxy = sxy + *v * count;
+            sxy = sxy + v * count;
             syy = syy + count.powi(2);
         }
         // Number of values the sums run over (smaller than `window_len` while the window fills).
